@@ -32,6 +32,13 @@ INPUT_SIDE = {'scandir', 'open_r', 'read', 'open_w'}          # nothing of the t
 WRITE_PHASE = {'opened_w', 'write', 'close_w'}                # the real open-for-write has happened
 
 
+class WorldTooHeavy(BaseException):
+    """Event cap of one execution exceeded: the generated world is pathological (e.g. nested symlink loops)."""
+
+
+EVENT_CAP = 60000
+
+
 class SimCrash(BaseException):
     """Simulated process death: unwinds main() without letting any proxied file flush."""
 
@@ -401,6 +408,8 @@ class World(object):
         n = self.counts.get(cls, 0)
         self.counts[cls] = n + 1
         self.seq += 1
+        if self.seq > EVENT_CAP:
+            raise WorldTooHeavy()
         ev = {'s': self.seq, 'c': cls, 'n': n}
         if path is not None:
             ev['p'] = self.norm(path)
@@ -623,6 +632,9 @@ def execute(entry, root, cwd, argv, env, stdin_bytes, listing_seed, faults=None,
                 exit_status = c & 0xFF
             else:
                 exit_status = 1
+        except WorldTooHeavy:
+            exit_status = 254
+            exc = 'WorldTooHeavy'
         except SimCrash:
             exit_status = 137
         except BaseException as e:      # an uncaught exception ends a real process with status 1
